@@ -193,7 +193,11 @@ def through_run_games(ctx, rng, count):
     from crlib import repo, quiet, time_limit, Timeout
     cr = repo("conditionalrewards")
     for k in range(count):
-        g = gen.layered_tie_game(rng) if k % 2 else gen.stopping_game(rng, n_inner=rng.randint(2, 5))
+        # k % 4 == 3: NO state has probability 0 (nothing to prune away), yet the two modes differ: the branch Player 1
+        # gives up for reachability is cut off from the initial state and emptied in the pruned run only
+        g = gen.layered_tie_game(rng) if k % 4 == 1 else gen.stopping_game(rng, n_inner=rng.randint(2, 5)) if k % 4 == 0 else \
+            gen.no_zero_game(rng) if k % 4 == 2 else \
+            (gen.close_values_game(rng) if rng.random() < 0.5 else gen.corridor_choice_game(rng))
         name = rng.choice(["t", "board_3", "case_no_prune", "x_no_prune"])
         try:
             d_ = gen.desc(g)
@@ -213,7 +217,8 @@ def through_run_games(ctx, rng, count):
             e = res.get(key)
             if o["outcome"] != "ok" or e is None or e.get("msg") != "Game solved":
                 continue
-            if e["prob_min_rew"] != o["res"][6] or e["rew_min_reach"] != o["res"][7] or e["final_strategies"] != o["res"][0]:
+            if e["prob_min_rew"] != o["res"][6] or e["rew_min_reach"] != o["res"][7] or e["final_strategies"] != o["res"][0] \
+                    or e["rewards"] != o["res"][2]:
                 ctx.violation("batch-reports-diagnostics", {"game": gen.desc(g), "name": name, "block": key, "prune": prune},
                               {"block": {"prob_min_rew": e["prob_min_rew"], "rew_min_reach": e["rew_min_reach"]},
                                "solve": {"prob_min_rew": o["res"][6], "rew_min_reach": o["res"][7]}})
